@@ -24,6 +24,7 @@ import (
 	"github.com/aergoio/aergo/v2/consensus/impl/dpos"
 	"github.com/aergoio/aergo/v2/consensus/impl/dpos/bp"
 	"github.com/aergoio/aergo/v2/consensus/impl/dpos/slot"
+	"github.com/aergoio/aergo/v2/contract/system"
 	"github.com/aergoio/aergo/v2/internal/enc/proto"
 	"github.com/aergoio/aergo/v2/p2p/p2pkey"
 	"github.com/aergoio/aergo/v2/p2p/p2putil"
@@ -67,21 +68,21 @@ func (r *stubComp) RequestFuture(m interface{}, timeout time.Duration, tip strin
 // ---------------------------------------------------------------- node
 
 type cnode struct {
-	dir     string
-	cs      *chain.ChainService
-	cons    consensus.Consensus
-	keys    []*btcec.PrivateKey
-	addrs   [][]byte
-	nonces  []uint64
-	queue   []types.Transaction // what the stub mempool hands to the block factory
-	ts      int64               // time of the last produced block (ns)
-	lpb     types.BlockNo
-	bpSize  uint16
-	bpIdx   uint16
-	gbps    []string
-	cfg     *config.Config
-	open_   bool
-	shifted bool // a sign verification was started and never waited for
+	dir       string
+	cs        *chain.ChainService
+	cons      consensus.Consensus
+	keys      []*btcec.PrivateKey
+	addrs     [][]byte
+	contracts [][]byte
+	queue     []types.Transaction // what the stub mempool hands to the block factory
+	ts        int64               // time of the last produced block (ns)
+	lpb       types.BlockNo
+	bpSize    uint16
+	bpIdx     uint16
+	gbps      []string
+	cfg       *config.Config
+	open_     bool
+	shifted   bool // a sign verification was started and never waited for
 }
 
 var nodeSeq int
@@ -119,7 +120,6 @@ func newCNode(root string, hf *config.HardforkConfig) *cnode {
 		n.addrs = append(n.addrs, a)
 		bal[types.EncodeAddress(a)] = coins(1000000).String()
 	}
-	n.nonces = make([]uint64, cAccts)
 	// two more genesis producers that never produce: the last irreversible block stays at genesis
 	bps := []string{p2pkey.NodeSID()}
 	for i := 0; i < 2; i++ {
@@ -239,11 +239,20 @@ func (n *cnode) nextSlot() int64 {
 	panic("no slot for this producer")
 }
 
-// mkTx: a signed transfer of account i for the block after the current best block.
-func (n *cnode) mkTx(i int, nonce uint64, rcpt []byte, amount *big.Int) *types.Tx {
+// stateNonce: the nonce of account i in the state of the best block
+func (n *cnode) stateNonce(i int) uint64 {
+	st, err := n.cs.SDB().GetStateDB().GetAccountState(types.ToAccountID(n.addrs[i]))
+	if err != nil || st == nil {
+		return 0
+	}
+	return st.GetNonce()
+}
+
+// mkTx: a signed transaction of account i for the block after the current best block.
+func (n *cnode) mkTx(i int, nonce uint64, rcpt []byte, amount *big.Int, typ types.TxType, payload []byte) *types.Tx {
 	bi := types.NewBlockHeaderInfoFromPrevBlock(n.best(), n.ts, n.cfg.Hardfork)
 	tx := &types.Tx{Body: &types.TxBody{Account: n.addrs[i], Recipient: rcpt, Amount: amount.Bytes(), Nonce: nonce,
-		GasPrice: big.NewInt(0).Bytes(), Type: types.TxType_TRANSFER, ChainIdHash: bi.ChainIdHash()}}
+		GasPrice: system.GetGasPrice().Bytes(), Type: typ, Payload: payload, ChainIdHash: bi.ChainIdHash()}}
 	if err := key.SignTx(tx, n.keys[i]); err != nil {
 		panic(err)
 	}
